@@ -99,6 +99,11 @@ def run_property(prop, tier, seed):
     known = load_known()
     groups = [g for g in mod.groups(tier)]
     bounded = mod.bounded(tier, seed) if hasattr(mod, "bounded") else []
+    only = os.environ.get("G3DVC_ONLY")
+    if only:  # development aid: run a subset (the evidence then describes the subset only)
+        keys = only.split(",")
+        groups = [g for g in groups if any(k in g.name for k in keys)]
+        bounded = [b for b in bounded if any(k in b[0] for k in keys)]
     verbose = os.environ.get("G3DVC_VERBOSE")
 
     def progress(key, msg):
@@ -141,6 +146,8 @@ def run_property(prop, tier, seed):
             if len(samples) < 12:
                 samples.append(dict(group=g.name, world=g.world, **sp))
         for ob in r.get("obligations", []):
+            if verbose and ob.get("seconds", 0) > 1.0:
+                print("    slow: %s / %s [%s] %s %.1fs %s" % (g.name, ob["label"][:90], ob.get("path"), ob["status"], ob["seconds"], ob.get("backend")))
             if ob.get("kind") == "must-fail":
                 # vacuity probe: a deliberately false clause; it has to be refuted on at least one path of its group
                 probe_state.setdefault((g.name, ob["label"]), []).append(ob["status"])
